@@ -252,7 +252,8 @@ BOUNDS = {"worlds": "LineWorld(3), GridWorld(2,2), DiscreteWorld(2,1,2), Discret
           "history": "<= 2/3 add/remove operations over 3 names on two same-shaped worlds", "lookup tables": "1-D (3), 2-D (2x2), 3-D (2x2x2) with symbolic entries"}
 OUTSIDE = ["pandas' own behaviour beyond the stubbed contract (dtype inference, index alignment, copy-on-write internals)",
            "cell tables larger than 4-8 cells"]
-STUBS = ["ECAgent.Environments.pandas replaced by a module whose DataFrame is the contract stand-in described in the module docstring",
+STUBS = ["functools.lru_cache-wrapped helpers of ECAgent.Environments replaced by a Python-level memo inside patched_pandas()",
+         "ECAgent.Environments.pandas replaced by a module whose DataFrame is the contract stand-in described in the module docstring",
          "Model.logger replaced by a no-op logger"]
 ASSUMPTIONS = ["pandas stores element i of an assigned sequence for row i, copies lists, and MAY alias ndarrays (worst case)"]
 
